@@ -299,6 +299,9 @@ func (w *vWorld) genuine() map[string]string {
 	_, tr := w.redeem(code2, vClientA, vSecretA, "", vRedirect, "header")
 	g["access"] = tr.AccessToken
 	g["idtoken"] = tr.IDToken
+	code3, _ := w.authorizeAud("alice", vClientA, "none", "https://api.example.org")
+	_, tr3 := w.redeem(code3, vClientA, vSecretA, "", vRedirect, "header")
+	g["access_aud"] = tr3.AccessToken
 	for k, v := range g {
 		if v == "" {
 			panic("verif harness: could not obtain a genuine " + k)
@@ -367,6 +370,9 @@ func runC04(t *testing.T, cases []map[string]interface{}, ev *vEvents) {
 	oc2, _ := w.authorize("bob", vClientA, "none")
 	_, otr := w.redeem(oc2, vClientA, vSecretA, "", vRedirect, "header")
 	other["access"], other["idtoken"] = otr.AccessToken, otr.IDToken
+	oc3, _ := w.authorizeAud("bob", vClientA, "none", "https://api.example.org")
+	_, otr3 := w.redeem(oc3, vClientA, vSecretA, "", vRedirect, "header")
+	other["access_aud"] = otr3.AccessToken
 	consumers := []string{"cookiegate", "cliverify", "clisend", "storage", "tokenendpoint", "userinfo"}
 	consumes := map[string]string{"cookiegate": "cookie", "cliverify": "cli", "clisend": "cli", "storage": "storage",
 		"tokenendpoint": "code", "userinfo": "access"}
